@@ -45,6 +45,7 @@ def check_end_coherence(db, chk, rule: str) -> None:
             chk.ob(rule, f"after the time shift of {T.show(rk)}: end == ts + dur (I_end re-established)", ok if not T.has_opaque(end) else None, where,
                    found={"ts": T.show(ts)[:120], "end": T.show(end)[:120], "state": "STALE" if stale else ("COHERENT" if ok else "?")},
                    accepted="end = (shifted ts) + dur", why="every reader of end (last-step cut-off, kernel span attributes, annotation windows) mixes it with the shifted ts", key=KEY)
+    check_time_dtype(db, chk, rule)
     # ------------------------------------------------------------ parse_trace_file (parse-only)
     pf = tm.func("parse_trace_file")
     DF = ("param", "PARSED")
@@ -109,3 +110,30 @@ def check_end_coherence(db, chk, rule: str) -> None:
     readers = sorted(set(readers))
     chk.analysed_add("readers_of_end", readers)
     chk.ob(rule, "readers of the end column exist (the invariant is relied upon)", len(readers) >= 6, tm.loc(fn), found=len(readers), accepted=">= 6 reader functions", nontrivial=False)
+
+
+def check_time_dtype(db, chk, rule: str) -> None:
+    """the time columns of a loaded frame keep a full-width dtype: _align_all_ranks neither down-casts nor narrows ts / dur / end.
+    (ts + dur, window bounds and node times are computed in the column's dtype; in a data-dependent narrow dtype they wrap.)"""
+    from .discipline import narrowing_casts
+    tm = db.mod(TM)
+    fn = tm.func("Trace._align_all_ranks")
+    where = tm.loc(fn)
+    R0 = T.P("RANK0")
+    T0 = ("param", "TR", R0)
+    I = Interp(db, decide=assume(("hascol", T0, "end")))
+    runs = [r for r in I.explore(f"{TM}:Trace._align_all_ranks", lambda I: {"self": Obj("self", cls=(tm, "Trace"), attrs={"traces": {R0: Frame(T0)}})}) if r.raised is None]
+    if len(runs) != 1:
+        chk.ob(rule, "_align_all_ranks: one path", None, where, found=len(runs))
+        return
+    r = runs[0]
+    timecols = [T.col(T0, c) for c in ("ts", "dur", "end")]
+    casts = [e for e in r.events if e["kind"] == "identity-cast" and e.get("term") is not None and any(tc in T.find(e["term"], lambda s: s[0] == "col") for tc in timecols)]
+    f = r.env["self"].attrs["traces"].get(R0)
+    narrow = []
+    if isinstance(f, Frame):
+        for c in ("ts", "dur", "end"):
+            narrow += narrowing_casts(f.col(c))
+    chk.ob(rule, "the shifted time columns are not down-cast (pd.to_numeric(downcast=...)) or narrowed", not casts and not narrow, where,
+           found={"downcasts": [T.show(e["term"])[:100] for e in casts], "narrow casts": narrow}, accepted="ts = ts - min_ts in the column's own 64-bit dtype",
+           why="after a data-dependent downcast (int16 when every start fits) ts + dur is evaluated in the narrow dtype: an event ending past 32767 us gets a negative end, a backward span edge and a negative weight")
